@@ -87,6 +87,13 @@ class MixedNormalAggregator(Aggregator):
         y["loc"] = self._np.stack(y["loc"], axis=0)
         y["scale"] = self._np.stack(y["scale"], axis=0)
 
+        if self._np is np.ma:
+            # A member without its loc or without its scale is no prediction: it is masked where
+            # either of them is, so that every statistic ignores the same members.
+            mask = np.ma.getmaskarray(y["loc"]) | np.ma.getmaskarray(y["scale"])
+            y["loc"] = np.ma.array(y["loc"], mask=mask)
+            y["scale"] = np.ma.array(y["scale"], mask=mask)
+
         loc = y["loc"]
         scale = y["scale"]
 
